@@ -9,6 +9,10 @@
 #[path = "gen/ll_parser.rs"] mod ll_parser;
 #[path = "gen/lr_grammar_trait.rs"] mod lr_grammar_trait;
 #[path = "gen/lr_parser.rs"] mod lr_parser;
+#[path = "gen/ll_t_grammar_trait.rs"] mod ll_t_grammar_trait;
+#[path = "gen/ll_t_parser.rs"] mod ll_t_parser;
+#[path = "gen/lr_t_grammar_trait.rs"] mod lr_t_grammar_trait;
+#[path = "gen/lr_t_parser.rs"] mod lr_t_parser;
 
 use parol_runtime::{ParolError, Token, parser::parse_tree_type::TreeConstruct};
 
@@ -19,7 +23,7 @@ macro_rules! user_grammar {
     ($m:ident, $ty:ident, $tr:ident, $trm:ident) => {
         mod $m {
             use super::Ev;
-            use crate::$trm::{A, B, Tog, $tr};
+            use crate::$trm::{A, B, Tog, Semi, $tr};
             use parol_runtime::{Result, Token};
             #[derive(Default)]
             pub struct $ty<'t> { pub events: Vec<Ev>, _p: std::marker::PhantomData<&'t ()> }
@@ -27,6 +31,7 @@ macro_rules! user_grammar {
                 fn a(&mut self, x: &A<'t>) -> Result<()> { self.events.push(Ev { kind: 'a', start: x.a.location.start as usize, end: x.a.location.end as usize }); Ok(()) }
                 fn b(&mut self, x: &B<'t>) -> Result<()> { self.events.push(Ev { kind: 'b', start: x.b.location.start as usize, end: x.b.location.end as usize }); Ok(()) }
                 fn tog(&mut self, x: &Tog<'t>) -> Result<()> { self.events.push(Ev { kind: '#', start: x.tog.location.start as usize, end: x.tog.location.end as usize }); Ok(()) }
+                fn semi(&mut self, x: &Semi<'t>) -> Result<()> { self.events.push(Ev { kind: ';', start: x.semi.location.start as usize, end: x.semi.location.end as usize }); Ok(()) }
                 fn on_comment(&mut self, t: Token<'t>) { self.events.push(Ev { kind: 'c', start: t.location.start as usize, end: t.location.end as usize }); }
             }
         }
@@ -34,6 +39,8 @@ macro_rules! user_grammar {
 }
 user_grammar!(ll_grammar, LlGrammar, LlGrammarTrait, ll_grammar_trait);
 user_grammar!(lr_grammar, LrGrammar, LrGrammarTrait, lr_grammar_trait);
+user_grammar!(ll_t_grammar, LlTGrammar, LlTGrammarTrait, ll_t_grammar_trait);
+user_grammar!(lr_t_grammar, LrTGrammar, LrTGrammarTrait, lr_t_grammar_trait);
 
 #[derive(Debug, Clone, PartialEq)]
 struct Leaf { ty: u16, start: usize, end: usize, text: String, line: u32, col: u32 }
@@ -55,7 +62,7 @@ impl<'t> TreeConstruct<'t> for Collector {
 // ---------------- oracle: reference tokenizer of the toy grammar ----------------
 #[derive(Debug, Clone, PartialEq)]
 struct RTok { ty: u16, start: usize, end: usize, skip: bool }
-const NL: u16 = 1; const WS: u16 = 2; const LC: u16 = 3; const BC: u16 = 4; const A: u16 = 5; const B: u16 = 6; const TOG: u16 = 7; const ERR: u16 = 8;
+const NL: u16 = 1; const WS: u16 = 2; const LC: u16 = 3; const BC: u16 = 4; const A: u16 = 5; const B: u16 = 6; const TOG: u16 = 7; const SEMI: u16 = 8; const ERR: u16 = 9;
 const INVALID: u16 = u16::MAX - 1;
 fn reference_tokens(s: &str) -> Vec<RTok> {
     let b = s.as_bytes();
@@ -79,6 +86,7 @@ fn reference_tokens(s: &str) -> Vec<RTok> {
         if c == b'b' { push(&mut out, &mut gap_start, RTok { ty: B, start: i, end: i + 1, skip: alt }); i += 1; continue; }
         // the toggle is significant when read in INITIAL and skipped when read in ALT (ALT's skip list names it); it switches the state either way
         if c == b'#' { push(&mut out, &mut gap_start, RTok { ty: TOG, start: i, end: i + 1, skip: alt }); i += 1; alt = !alt; continue; }
+        if c == b';' { push(&mut out, &mut gap_start, RTok { ty: SEMI, start: i, end: i + 1, skip: false }); i += 1; continue; }
         if !alt {
             if rest.starts_with("//") {
                 let mut j = i; while j < b.len() && b[j] != b'\n' { j += 1; } if j < b.len() { j += 1; }
@@ -106,18 +114,17 @@ fn line_col(s: &str, off: usize) -> (u32, u32) {
 }
 
 struct Run { ok: bool, leaves: Vec<Leaf>, events: Vec<Ev>, panicked: bool }
-fn run(lr: bool, input: &str) -> Run {
+/// variant: 0 = LL(k), 1 = LALR(1), 2 = LL(k) with trim_parse_tree, 3 = LALR(1) with trim_parse_tree
+const VARIANTS: [&str; 4] = ["LL(k)", "LALR(1)", "LL(k) trimmed", "LALR(1) trimmed"];
+fn run(v: usize, input: &str) -> Run {
     let inp = input.to_string();
     let r = std::panic::catch_unwind(move || {
         let mut col = Collector::default();
-        if lr {
-            let mut g = lr_grammar::LrGrammar::default();
-            let r = lr_parser::parse_into(&inp, &mut col, "x", &mut g);
-            (r.is_ok(), col.leaves, g.events)
-        } else {
-            let mut g = ll_grammar::LlGrammar::default();
-            let r = ll_parser::parse_into(&inp, &mut col, "x", &mut g);
-            (r.is_ok(), col.leaves, g.events)
+        match v {
+            1 => { let mut g = lr_grammar::LrGrammar::default(); let r = lr_parser::parse_into(&inp, &mut col, "x", &mut g); (r.is_ok(), col.leaves, g.events) }
+            2 => { let mut g = ll_t_grammar::LlTGrammar::default(); let r = ll_t_parser::parse_into(&inp, &mut col, "x", &mut g); (r.is_ok(), col.leaves, g.events) }
+            3 => { let mut g = lr_t_grammar::LrTGrammar::default(); let r = lr_t_parser::parse_into(&inp, &mut col, "x", &mut g); (r.is_ok(), col.leaves, g.events) }
+            _ => { let mut g = ll_grammar::LlGrammar::default(); let r = ll_parser::parse_into(&inp, &mut col, "x", &mut g); (r.is_ok(), col.leaves, g.events) }
         }
     });
     match r { Ok((ok, leaves, events)) => Run { ok, leaves, events, panicked: false }, Err(_) => Run { ok: false, leaves: vec![], events: vec![], panicked: true } }
@@ -135,13 +142,22 @@ const CLAUSES: [(&str, &str); 9] = [
     ("C17", "every comment is passed to on_comment exactly once, in input order"),
 ];
 /// index of the first violated clause
-fn check(lr: bool, input: &str) -> Option<usize> {
+fn check(v: usize, input: &str) -> Option<usize> {
     let want = reference_tokens(input);
-    let r = run(lr, input);
+    let r = run(v, input);
     if r.panicked { return Some(0); }
-    let expect_ok = !want.iter().any(|t| t.ty == ERR);
+    // sentence of the toy grammar: no error token, and every significant `;` directly follows a significant `a`
+    let sigs: Vec<u16> = want.iter().filter(|t| !t.skip).map(|t| t.ty).collect();
+    let semi_ok = (0..sigs.len()).all(|i| sigs[i] != SEMI || (i > 0 && sigs[i - 1] == A));
+    let expect_ok = !want.iter().any(|t| t.ty == ERR) && semi_ok;
     if r.ok != expect_ok { return Some(1); }
     if !r.ok { return None; }
+    let trimmed = v >= 2;
+    if trimmed {
+        // no tree is built: only the action and comment clauses apply (and nothing may reach the tree builder)
+        if !r.leaves.is_empty() { return Some(4); }
+        return check_events(&r, &want);
+    }
     let mut pos = 0;
     for l in &r.leaves { if l.start != pos || l.end < l.start { return Some(2); } pos = l.end; }
     if pos != input.len() { return Some(2); }
@@ -150,16 +166,20 @@ fn check(lr: bool, input: &str) -> Option<usize> {
     for (l, w) in r.leaves.iter().zip(&want) { if l.ty != w.ty || l.start != w.start || l.end != w.end { return Some(4); } }
     for l in &r.leaves { if l.ty != INVALID && (l.line, l.col) != line_col(input, l.start) { return Some(5); } }
     let gap_bad = r.leaves.iter().any(|l| l.ty == INVALID && (l.line, l.col) != line_col(input, l.start));
+    if let Some(c) = check_events(&r, &want) { return Some(c); }
+    if gap_bad { return Some(6); }
+    None
+}
+fn check_events(r: &Run, want: &[RTok]) -> Option<usize> {
     let acts: Vec<(char, usize)> = r.events.iter().filter(|e| e.kind != 'c').map(|e| (e.kind, e.start)).collect();
-    let want_acts: Vec<(char, usize)> = want.iter().filter(|t| !t.skip).map(|t| (match t.ty { A => 'a', B => 'b', _ => '#' }, t.start)).collect();
+    let want_acts: Vec<(char, usize)> = want.iter().filter(|t| !t.skip).map(|t| (match t.ty { A => 'a', B => 'b', SEMI => ';', _ => '#' }, t.start)).collect();
     if acts != want_acts { return Some(7); }
     let cms: Vec<(usize, usize)> = r.events.iter().filter(|e| e.kind == 'c').map(|e| (e.start, e.end)).collect();
     let want_cms: Vec<(usize, usize)> = want.iter().filter(|t| t.ty == LC || t.ty == BC).map(|t| (t.start, t.end)).collect();
     if cms != want_cms { return Some(8); }
-    if gap_bad { return Some(6); }
     None
 }
-const PIECES: [&str; 11] = ["a", "b", "#", " ", "\n", "//c\n", "/*c*/", "?", "ä", "//", "\t"];
+const PIECES: [&str; 12] = ["a", "b", "#", " ", "\n", "//c\n", "/*c*/", "?", "ä", "//", "\t", ";"];
 fn esc(s: &str) -> String { s.chars().map(|c| format!("{}", c as u32)).collect::<Vec<_>>().join(",") }
 fn main() {
     std::panic::set_hook(Box::new(|_| {}));
@@ -178,11 +198,11 @@ fn main() {
             // `*/` directly followed by `/` makes the generated block-comment regex run past the first end
             // delimiter (observed defect belonging to C15, which is not claimed): such inputs are excluded
             let excluded = input.contains("*//");
-            for lr in [false, true] {
+            for v in 0..VARIANTS.len() {
                 if excluded { continue; }
                 cases += 1;
-                if let Some(ci) = check(lr, &input) {
-                    if first[ci].is_none() { first[ci] = Some(format!("{{\"lr\":{},\"chars\":[{}]}}", lr, esc(&input))); }
+                if let Some(ci) = check(v, &input) {
+                    if first[ci].is_none() { first[ci] = Some(format!("{{\"v\":{},\"chars\":[{}]}}", v, esc(&input))); }
                 }
             }
             if p.len() < maxlen { for i in 0..PIECES.len() { let mut q = p.clone(); q.push(i); stack.push(q); } }
@@ -198,14 +218,15 @@ fn main() {
         if bad { std::process::exit(1); }
     } else if a[1] == "show" {
         let input = a[2].replace("\\n", "\n");
-        for lr in [false, true] { let r = run(lr, &input); println!("lr={} ok={} panicked={}\n leaves={:?}\n events={:?}\n want={:?}\n violated={:?}", lr, r.ok, r.panicked, r.leaves, r.events, reference_tokens(&input), check(lr, &input).map(|i| CLAUSES[i].1)); }
+        for v in 0..VARIANTS.len() { let r = run(v, &input); println!("{} ok={} panicked={}\n leaves={:?}\n events={:?}\n want={:?}\n violated={:?}", VARIANTS[v], r.ok, r.panicked, r.leaves, r.events, reference_tokens(&input), check(v, &input).map(|i| CLAUSES[i].1)); }
     } else {
         let s = &a[2];
-        let lr = s.contains("\"lr\":true");
+        // older replay files carry "lr":bool, newer ones "v":variant
+        let v: usize = if let Some(p) = s.find("\"v\":") { s[p + 4..].chars().take_while(|c| c.is_ascii_digit()).collect::<String>().parse().unwrap() } else if s.contains("\"lr\":true") { 1 } else { 0 };
         let cs = &s[s.find("\"chars\"").unwrap()..];
         let input: String = cs.split(|c: char| !c.is_ascii_digit()).filter(|x| !x.is_empty()).map(|x| char::from_u32(x.parse().unwrap()).unwrap()).collect();
-        println!("input {:?} with the {} parser", input, if lr { "LALR(1)" } else { "LL(k)" });
-        match check(lr, &input) {
+        println!("input {:?} with the {} parser", input, VARIANTS[v]);
+        match check(v, &input) {
             Some(ci) => { println!("REPRODUCED on the real crates: violated `{}`", CLAUSES[ci].1); std::process::exit(1) }
             None => println!("the recorded input satisfies all clauses on the current tree"),
         }
